@@ -2516,6 +2516,10 @@ class SSHConnection(SSHPacketHandler, asyncio.Protocol):
             if username != self._username:
                 self.logger.info('Beginning auth for user %s', username)
 
+                if self._auth:
+                    self._auth.cancel()
+                    self._auth = None
+
                 self._username = username
                 begin_auth = True
             else:
@@ -2530,15 +2534,20 @@ class SSHConnection(SSHPacketHandler, asyncio.Protocol):
         if not self._owner: # pragma: no cover
             return
 
+        username = self._username
+
         if begin_auth:
             # This method is only in SSHServerConnection
             # pylint: disable=no-member
             await cast(SSHServerConnection, self).reload_config()
 
-            result = cast(SSHServer, self._owner).begin_auth(self._username)
+            result = cast(SSHServer, self._owner).begin_auth(username)
 
             if inspect.isawaitable(result):
                 result = await cast(Awaitable[bool], result)
+
+            if username != self._username or self._auth_complete:
+                return
 
             if not result:
                 await self.send_userauth_success()
